@@ -601,6 +601,15 @@ def r06_5(chk, repo):
                         [x.key() for x in it_] == [f"numpy.linalg.norm(self.basis[{k}])" for k in range(3)]
                 else:
                     oksp = sp.key() in ("numpy.linalg.norm(self.basis, axis=1)", "numpy.sqrt(numpy.sum(self.basis**2, axis=1))")
+                    # the three norms as a comprehension over (x_basis, y_basis, z_basis) (or over the rows of the basis)
+                    import re as _re
+                    ca_ = sp.as_atom()
+                    if ca_ and ca_[0] == "call" and call_name(ca_) in ("tuple", "list", "numpy.array", "numpy.asarray") and len(ca_[2]) == 1:
+                        ca_ = ca_[2][0].as_atom()
+                    if not oksp and ca_ and ca_[0] == "comp" and len(ca_) == 4 and len(ca_[3]) == 1 and not ca_[3][0][2]:
+                        src_ = ca_[3][0][1].key()
+                        elt_ = _re.sub(r"_it#\d+", "_it", ca_[2].key())
+                        oksp = src_ in ("(tuple (self.x_basis self.y_basis self.z_basis))", "self.basis") and elt_ == f"numpy.linalg.norm({src_}[_it])"
             chk.ob("R06.5", "fmt/cube.py", "CubeData.isosurface", "the spacing handed to the mesher lists the lengths of the grid axes in array-axis order "
                    "(the rows x_basis, y_basis, z_basis of the basis; its columns are Cartesian components)", oksp, fingerprint="cube:spacing",
                    node=mcs[0].node if mcs else None, expected="(|x_basis|, |y_basis|, |z_basis|) = norm(basis, axis=1)", found=str(sp)[:160])
